@@ -1,5 +1,5 @@
 ---------------------------- MODULE Expose_Trace ----------------------------
-(* Trace validation for C41.  Item = [cd (ms), ev]; events (t in ms):
+(* Trace validation for C41.  Item = [cd (ms), per (1: periodic sending configured), ev]; events (t in ms):
      set {v, skip, t}   init {v, t}   read {t}   tx {kind: "write" | "response", v, t}   end {t} *)
 EXTENDS Integers, Sequences, FiniteSets, Json, IOUtils, TLC
 Traces == ndJsonDeserialize(IOEnv.TRACE_FILE)
@@ -12,19 +12,19 @@ E10 == INSTANCE Expose WITH CD <- 10000, TOL <- 5, SLACK <- 100
 Ev == Traces[tid].ev[l]
 Cd == Traces[tid].cd
 TInit == tid \in 1..Len(Traces) /\ l = 1 /\ E0!Init /\ Cd \in {0, 2000, 10000}
-Act(OnTime(_), Set(_, _, _), Initialize(_, _), Read(_), TxWrite(_, _), TxResponse(_, _), Quiet) ==
+Act(OnTime(_), Set(_, _, _), Initialize(_, _), Read(_), TxWrite(_, _), TxWriteAny(_, _), TxResponse(_, _), Quiet) ==
   /\ OnTime(Ev.t)
   /\ \/ Ev.ev = "set" /\ Set(Ev.v, Ev.skip = 1, Ev.t)
      \/ Ev.ev = "init" /\ Initialize(Ev.v, Ev.t)
      \/ Ev.ev = "read" /\ Read(Ev.t)
-     \/ Ev.ev = "tx" /\ Ev.kind = "write" /\ TxWrite(Ev.v, Ev.t)
+     \/ Ev.ev = "tx" /\ Ev.kind = "write" /\ IF Traces[tid].per = 1 THEN TxWriteAny(Ev.v, Ev.t) ELSE TxWrite(Ev.v, Ev.t)
      \/ Ev.ev = "tx" /\ Ev.kind = "response" /\ TxResponse(Ev.v, Ev.t)
      \/ Ev.ev = "end" /\ Quiet /\ UNCHANGED <<lastSet, lastSetAt, owed, lastBus, lastWrite, seen, reads>>
 Step ==
   /\ l <= Len(Traces[tid].ev) /\ l' = l + 1 /\ UNCHANGED tid
-  /\ CASE Cd = 0 -> Act(E0!OnTime, E0!Set, E0!Initialize, E0!Read, E0!TxWrite, E0!TxResponse, E0!Quiet)
-       [] Cd = 2000 -> Act(E2!OnTime, E2!Set, E2!Initialize, E2!Read, E2!TxWrite, E2!TxResponse, E2!Quiet)
-       [] Cd = 10000 -> Act(E10!OnTime, E10!Set, E10!Initialize, E10!Read, E10!TxWrite, E10!TxResponse, E10!Quiet)
+  /\ CASE Cd = 0 -> Act(E0!OnTime, E0!Set, E0!Initialize, E0!Read, E0!TxWrite, E0!TxWriteAny, E0!TxResponse, E0!Quiet)
+       [] Cd = 2000 -> Act(E2!OnTime, E2!Set, E2!Initialize, E2!Read, E2!TxWrite, E2!TxWriteAny, E2!TxResponse, E2!Quiet)
+       [] Cd = 10000 -> Act(E10!OnTime, E10!Set, E10!Initialize, E10!Read, E10!TxWrite, E10!TxWriteAny, E10!TxResponse, E10!Quiet)
 TSpec == TInit /\ [][Step]_vars
 Mark == /\ TLCSet(2, [TLCGet(2) EXCEPT ![tid] = IF @ < l THEN l ELSE @])
         /\ (l = Len(Traces[tid].ev) + 1 => TLCSet(1, TLCGet(1) \cup {tid}))
